@@ -350,6 +350,19 @@ theorem C14_find_unknown (ix : Index) (hs : Sorted ix) (key : List Nat) (t : Fin
 theorem C14_duplicate (ix : Index) (hs : Sorted ix) (n : List Nat) (k : Nat) :
     OptIndex.insert ix n k = none ↔ ∃ o, (n, o) ∈ ix := (insert_spec ix n k hs).2
 
+/-- **a refused add leaves the context as it was** when the option's short name is the one that is taken (the short name is looked at
+    first): the add fails and the context the caller goes on using is the one it had — every lookup answers as before.
+    (When the short name is new and only the long name is taken, the code has already entered the short name: `Ctx.afterRefused`.) -/
+theorem C14_refused_short_unchanged (c : Ctx) (name : List Nat) (alias : Nat) (ha : alias ≠ 0) (hs : Sorted c.index)
+    (ht : ∃ o, ([45, alias], o) ∈ c.index) : c.addOption name alias = none ∧ c.afterRefused alias = c := by
+  have hi : OptIndex.insert c.index [45, alias] c.nOpts = none := (C14_duplicate c.index hs _ _).mpr ht
+  constructor
+  · simp [Ctx.addOption, ha, hi]
+  · simp [Ctx.afterRefused, ha, hi]
+
+/-- an option without short name that is refused changes nothing either -/
+theorem C14_refused_noalias_unchanged (c : Ctx) : c.afterRefused 0 = c := by simp [Ctx.afterRefused]
+
 /-! non-vacuity: names with bytes ≥ 0x7f after a shared prefix -/
 def exIndex : Index := [([45, 102], 0), ([102, 111, 111], 0), ([102, 111, 111, 45, 98], 1), ([102, 111, 195, 164], 2)]
 example : Sorted exIndex := by simp [Sorted, exIndex, lexLt]
